@@ -35,8 +35,10 @@ class Enc:
 def write_string(group, name, s, enc):
     mode = enc.pick("str", ["vlen-utf8", "vlen-ascii", "fixed-utf8-nul", "fixed-ascii-nul", "fixed-utf8-space"])
     ascii_ok = all(ord(c) < 128 for c in s)
-    if "ascii" in mode and not ascii_ok:
+    if "ascii" in mode and not ascii_ok and mode.startswith("vlen"):
         mode = mode.replace("ascii", "utf8")
+    # (fixed-length strings tagged ASCII but holding UTF-8 bytes are what h5py itself writes for numpy bytes_ values;
+    #  the character-set tag is advisory and the bytes are UTF-8 all the same)
     raw = s.encode("utf-8")
     if mode.startswith("vlen"):
         dt = h5py.string_dtype("utf-8" if "utf8" in mode else "ascii")
@@ -173,6 +175,20 @@ def writable_recipe(rng):
         if len(shp) == 3 and rng.random() < 0.5:
             nodes.insert(1, ["pool", gen.node_recipe(rng, "SumPool2d", meta_p=0)])
         return {"type": "NIRGraph", "nodes": nodes, "edges": [["in", "f"], ["f", "out"]], "meta": None}
+    if rng.random() < 0.12:
+        # many channels next to a small spatial size: the channel count exceeds what the narrow integer type chosen
+        # for `input_shape` can hold
+        cin = rng.choice([130, 200, 300])
+        two_d = rng.random() < 0.5
+        k = [1] * (2 if two_d else 1)
+        n = [rng.randrange(2, 9) for _ in k]
+        conv = {"type": "Conv2d" if two_d else "Conv1d", "kwargs": [
+            ["input_shape", {"t": [gen.pyint(x) for x in n]} if two_d else gen.pyint(n[0])],
+            ["weight", gen.arr(rng, [2, cin] + k, "<f2")], ["stride", gen.pyint(1)], ["padding", gen.pyint(0)],
+            ["dilation", gen.pyint(1)], ["groups", gen.pyint(1)], ["bias", gen.arr(rng, [2], "<f2")]]}
+        nodes = [["in", {"type": "Input", "kwargs": [["input_type", gen.shape_arg(rng, [cin] + n, "input")]]}], ["conv", conv],
+                 ["out", {"type": "Output", "kwargs": [["output_type", gen.shape_arg(rng, [2] + n, "output")]]}]]
+        return {"type": "NIRGraph", "nodes": nodes, "edges": [["in", "conv"], ["conv", "out"]], "meta": None}
     g = gen.random_graph(rng, meta_p=0.3, maxdepth=2)
     return g
 
